@@ -64,7 +64,7 @@ def _rep_h(model):
     return "oneone"
 
 
-def lk_quad(nu, hkind, z, outside=None):
+def lk_quad(nu, hkind, z, outside=None, split=()):
     """int (exp(z x) - 1 - z h(x)) nu(dx) by mpmath with the implementation's density; z complex (mp).
     outside=(l, r): integrate only over the complement of [l, r]."""
     z = mp.mpmathify(z)
@@ -86,7 +86,9 @@ def lk_quad(nu, hkind, z, outside=None):
     if outside is not None:
         l, r = outside
         return mp.quad(f, [-mp.inf, min(l - 1, -8), l]) + mp.quad(f, [r, max(r + 1, 8), mp.inf])
-    return mp.quad(f, [-mp.inf, -8, -1, -mp.mpf("1e-3"), 0]) + mp.quad(f, [0, mp.mpf("1e-3"), 1, 8, mp.inf])
+    neg = sorted({-mp.inf, -8, -1, -mp.mpf("1e-3"), 0} | {mp.mpf(p) for p in split if p < 0})
+    pos = sorted({0, mp.mpf("1e-3"), 1, 8, mp.inf} | {mp.mpf(p) for p in split if p > 0})
+    return mp.quad(f, neg) + mp.quad(f, pos)
 
 
 def strip(kind, params):
@@ -234,7 +236,7 @@ def _ctmc_route(res, rng, kind, params, em, nu, hk, r, d, ykey):
     l, rr = tnu.truncations
     mu_h = float(compute_mu_h(levy_measure=tnu, grid=grid, axis=grid.axes[0], origin=grid.origin_coordinate.value))
     sig = em.levy_triplet.sigma
-    Jc = complex(lk_quad(tnu, "center", 1.0)).real              # int (e^x - 1 - x) nu_truncated
+    Jc = complex(lk_quad(tnu, "center", 1.0, split=(l, rr))).real   # int (e^x - 1 - x) nu_truncated
     tail = complex(lk_quad(nu, hk, 1.0, outside=(l, rr))).real  # what the truncation removed from kappa(1)
     growth = float(mcp._process_drift) + mu_h + 0.5 * sig ** 2 + Jc
     res.count(("fwd-ctmc", kind, tuple(sorted(params.items())), r, d), kind="oracle forward ctmc route")
